@@ -42,9 +42,18 @@ def rand_expr(rng, depth, real):
         fn = rng.choice(('f', 'g', 'h'))
         return ('func', fn) + tuple(sub() for _ in range(rng.choice((1, 1, 2))))
     if r < 0.50:
-        inner = rand_expr(rng, max(0, depth - 2), real)
         v = rng.choice((X, Y))
         return ('derivative', ('func', rng.choice(('f', 'g')), v, rng.choice((X, Y, Z))), v)
+    if r < 0.56:
+        # unevaluated substitutions: Subs objects whose bound variable also occurs in the substitution point (f'(x) at x -> x**2),
+        # produced both by the library (diff then subs) and directly
+        v = rng.choice((X, Y))
+        o = rng.choice((X, Y, Z))
+        fn = ('func', rng.choice(('f', 'g', 'h')), v) if rng.random() < 0.6 else ('func', rng.choice(('f', 'g')), v, o)
+        point = rng.choice((('pow', v, I(2)), ('add', v, o), ('mul', I(2), v), ('sin', v), ('mul', v, o), I(2), ('add', o, I(1))))
+        if rng.random() < 0.6:
+            return ('subs', ('diff', fn, v), (v, point))
+        return ('subs_node', ('derivative', fn, v), (v, point))
     if real:
         return (rng.choice(('add', 'mul', 'sub')), sub(), sub()) if rng.random() < 0.85 else ('pow', sub(), I(rng.choice((2, 3))))
     return gen.rand_arith(rng, 1, unary=(), complex_=not real) if rng.random() < 0.15 else \
